@@ -12,6 +12,7 @@ import (
 	"saoverif/check"
 	"saoverif/world"
 
+	didtypes "github.com/SaoNetwork/sao/x/did/types"
 	nodetypes "github.com/SaoNetwork/sao/x/node/types"
 	saotypes "github.com/SaoNetwork/sao/x/sao/types"
 	sdk "github.com/cosmos/cosmos-sdk/types"
@@ -438,3 +439,67 @@ func (m *C02) Block(w *world.World, e *world.BlockEvent) {
 	}
 }
 func (m *C02) Done(w *world.World) {}
+
+// scnPayaddrSwitch: a did:sid owner (with a second cosmos account and eip155 accounts under both chain references
+// bound to it) re-points its payment address while orders are in flight; the orders are then refunded from the end
+// blocker (give-up after ten examinations), by a cancel and by a terminate. Whatever the registry accepted as a
+// payment address is dereferenced by the refund path inside EndBlock.
+func scnPayaddrSwitch(ctx *check.JobCtx) {
+	w := newLifeWorld(ctx, monitorsFor(ctx.Job.Prop)...)
+	a := setupAuthz(w)
+	if w.Halted() {
+		w.Finish()
+		return
+	}
+	r := w.Rng
+	sid := a.sowner.Id.(*actors.SidDid)
+	second := w.Acct("pay-revoked")
+	ts := uint64(chain.BlockTime(w.H()).Unix())
+	w.BindSid(a.sowner.Pay, second, sid, ts, nil)
+	var eths []string
+	for i, pref := range []string{"eip155:1:", "eip155:" + chain.ChainID + ":"} {
+		ethPrefix = pref
+		p, accId := ethProof(fmt.Sprintf("pa%d", i), sid.DID(), ts, actors.BindingMessage(sid.DID(), ts), false)
+		m := &didtypes.MsgBinding{Creator: a.sowner.Pay.Addr.String(), AccountId: accId, RootDocId: sid.RootDoc, Keys: sid.Versions[0].Keys,
+			AccountAuth: &didtypes.AccountAuth{AccountDid: fmt.Sprintf("did:key:ethacc%d", i), AccountEncryptedSeed: "s", SidEncryptedAccount: "a"}, Proof: p}
+		if e := w.Deliver("did-binding", a.sowner.Pay, nil, m); e.OK {
+			eths = append(eths, accId)
+		}
+	}
+	ethPrefix = "eip155:1:"
+	w.EndBlock()
+	targets := append([]string{second.AccountID(), a.sowner.Pay.AccountID()}, eths...)
+	rounds := int(ctx.ArgInt("rounds", 3))
+	for k := 0; k < rounds && !w.Halted(); k++ {
+		// silent providers: the order can only be given up by the end blocker
+		did := w.NewDataId()
+		timeout := int32(10 + r.Intn(10))
+		_, o1 := w.Store(world.StoreReq{Owner: a.sowner.Id, Gateway: a.gw, DataId: did, CommitId: did, Duration: 3600, Replica: int32(1 + r.Intn(2)), Timeout: timeout, Size: 1000})
+		did2 := w.NewDataId()
+		_, o2 := w.Store(world.StoreReq{Owner: a.sowner.Id, Gateway: a.gw, DataId: did2, CommitId: did2, Duration: 3600, Replica: 1, Timeout: 400, Size: 1000})
+		done := a.newModel(a.sowner, 1)
+		w.EndBlock()
+		tg := targets[(k+int(ctx.Job.Seed%4+4))%len(targets)]
+		e := w.Deliver("did-payaddr", a.sowner.Pay, nil, &didtypes.MsgUpdatePaymentAddress{Creator: a.sowner.Pay.Addr.String(), AccountId: tg, Did: sid.DID()})
+		w.Case("c02:payaddr-switch:target=%s,accepted=%v", strings.SplitN(tg, ":", 3)[0]+":"+strings.SplitN(tg, ":", 3)[1], e.OK)
+		w.EndBlock()
+		if o2 != 0 {
+			w.Cancel(a.gw.Acct, o2, a.gw.Acct.Addr.String())
+		}
+		if done != "" {
+			w.Terminate(a.sowner.Id, nil, a.gw.Acct, "", done, nil)
+		}
+		w.EndBlock()
+		// a new store charged to whatever the payment address is now
+		did3 := w.NewDataId()
+		if _, o3 := w.Store(world.StoreReq{Owner: a.sowner.Id, Gateway: a.gw, DataId: did3, CommitId: did3, Duration: 3600, Replica: 1, Timeout: 30, Size: 1000}); o3 != 0 && r.Intn(2) == 0 {
+			w.CompleteAll(o3)
+		}
+		if o1 != 0 {
+			w.Advance(int64(timeout)*11 + 5)
+		}
+	}
+	w.Advance(400)
+	w.Sample("payment-address switch with orders in flight: %s", traceSummary(w))
+	w.Finish()
+}
